@@ -421,7 +421,13 @@ pub fn graph_for(net: &RefNet, via_files: bool) -> Result<std::sync::Arc<Graph>,
     let r = (|| {
         write_text(&ep, &net.edges_csv(false), false).map_err(|e| e.to_string())?;
         write_text(&vp, &net.vertices_csv(0), false).map_err(|e| e.to_string())?;
-        Graph::from_files(&ep, &vp, None, None, Some(false)).map_err(|e| e.to_string())
+        // counts declared (both, or the edge count only) or scanned from the files, decided by the network's shape
+        let (n_e, n_v) = match (net.nv() * 31 + net.ne()) % 3 {
+            0 => (None, None),
+            1 => (Some(net.ne()), Some(net.nv())),
+            _ => (Some(net.ne()), None),
+        };
+        Graph::from_files(&ep, &vp, n_e, n_v, Some(false)).map_err(|e| e.to_string())
     })();
     let _ = std::fs::remove_dir_all(&dir);
     r.map(std::sync::Arc::new)
